@@ -28,6 +28,7 @@ type Scenario struct {
 	Check   func(w *World) []Violation  // oracle, evaluated after the execution
 	Outcome func(w *World) string       // canonical observation (distinct-outcome count, determinism check)
 	Log     bool
+	Bounds  *Bounds // overrides the bounds of the check for this configuration
 }
 
 type ExecResult struct {
@@ -302,6 +303,13 @@ func (e *Explorer) record(cfg int, sc *Scenario, r *ExecResult, d, s int) {
 // exploreConfig explores one scenario: the default schedule and every
 // schedule with at most bounds.D thread deviations and bounds.S stalls inside
 // the branching window. Work is split over shards on the first deviation.
+func (e *Explorer) boundsFor(sc *Scenario) Bounds {
+	if sc.Bounds != nil {
+		return *sc.Bounds
+	}
+	return e.bounds
+}
+
 func (e *Explorer) exploreConfig(cfg int, sc *Scenario) {
 	e.stats.Configs++
 	base := runScenario(e.t, e.prop, sc, nil, false)
@@ -341,7 +349,7 @@ func (e *Explorer) exploreConfig(cfg int, sc *Scenario) {
 			} else {
 				d = 1
 			}
-			if !e.bounds.ok(d, s) {
+			if !e.boundsFor(sc).ok(d, s) {
 				continue
 			}
 			mine := e.itemNo%e.nshards == e.shard
@@ -393,7 +401,7 @@ func (e *Explorer) explore(cfg int, sc *Scenario, devs []vsched.Dev, d, s int, p
 	if r.Infra != "" {
 		return
 	}
-	if e.bounds.full(d, s) {
+	if e.boundsFor(sc).full(d, s) {
 		return
 	}
 	for i := last.Step + 1; i < len(r.Trace); i++ {
@@ -408,7 +416,7 @@ func (e *Explorer) explore(cfg int, sc *Scenario, devs []vsched.Dev, d, s int, p
 			} else {
 				nd++
 			}
-			if !e.bounds.ok(nd, ns) {
+			if !e.boundsFor(sc).ok(nd, ns) {
 				continue
 			}
 			nd2 := append(append([]vsched.Dev(nil), devs...), vsched.Dev{Step: i, Choice: alt})
